@@ -170,22 +170,27 @@ func (S *LevelDbStore) Update(store CRLStore) error {
 	if ok == false {
 		return errors.New("invalid update store type")
 	}
-	err := S.closeDbWithRetries(S.Db)
+	err := S.closeDbWithRetries(levelDbNew.Db)
 	if err != nil {
 		return err
 	}
-	err = S.closeDbWithRetries(levelDbNew.Db)
+	err = S.closeDbWithRetries(S.Db)
 	if err != nil {
 		return err
 	}
 	levelDBPath := filepath.Join(S.BasePath, S.Identifier)
 	levelDBPathTemp, err := S.renameWithRetriesToTempDir(S.LevelDBPath)
 	if err != nil {
-		return err
+		return S.reopenAfterFailedUpdate(err)
 	}
 	err = S.renameWithRetries(levelDbNew.LevelDBPath, levelDBPath)
 	if err != nil {
-		return err
+		//move the previous database back so that it stays in force
+		rollbackErr := S.renameWithRetries(levelDBPathTemp, S.LevelDBPath)
+		if rollbackErr != nil {
+			return fmt.Errorf("%v; restoring the previous database failed: %v", err, rollbackErr)
+		}
+		return S.reopenAfterFailedUpdate(err)
 	}
 
 	err = S.removeWithRetries(levelDBPathTemp)
@@ -198,6 +203,17 @@ func (S *LevelDbStore) Update(store CRLStore) error {
 	}
 	S.Db = db
 	return nil
+}
+
+// reopenAfterFailedUpdate makes the store serve its previous content again after an update
+// which failed before the new database was moved in place
+func (S *LevelDbStore) reopenAfterFailedUpdate(cause error) error {
+	db, err := openDbWithRetries(S.LevelDBPath, S.Logger)
+	if err != nil {
+		return fmt.Errorf("%v; reopening the previous database failed: %v", cause, err)
+	}
+	S.Db = db
+	return cause
 }
 
 func (S *LevelDbStore) closeDbWithRetries(db *leveldb.DB) error {
